@@ -447,6 +447,13 @@ func (f *Flow) transfer1(in ssa.Instruction, facts Facts) {
 				}
 			}
 		}
+		if blocksOnContext(c) {
+			w2 := map[string]bool{ctxLiveLoc: true}
+			for k := range w {
+				w2[k] = true
+			}
+			w = w2
+		}
 		if len(w) > 0 {
 			f.kill(facts, w)
 		}
@@ -1287,4 +1294,25 @@ func knownConst(facts Facts, x *Term) *Term {
 		}
 	}
 	return nil
+}
+
+// blocksOnContext: a call of a consumer SPI method or of a consumer callback (a function value) that takes a context:
+// it may block until that context is cancelled.
+func blocksOnContext(c *ssa.CallCommon) bool {
+	hasCtx := false
+	for _, a := range c.Args {
+		if typeShort(a.Type()) == "context.Context" {
+			hasCtx = true
+		}
+	}
+	if !hasCtx {
+		return false
+	}
+	if c.IsInvoke() {
+		ts := typeShort(c.Value.Type())
+		// (Membership calls report cancellation through their error result; BlockUtils calls have no error result for it:
+		// the repository's own convention is to re-check ctx.Err() after them)
+		return ts == "interfaces.BlockUtils"
+	}
+	return c.StaticCallee() == nil // a callback held in a field / variable
 }
